@@ -134,13 +134,26 @@ class C06(Prop):
         })
 
     def enumerate(self, tier, seed):
+        self._arcs_total = 0
+        self._arcs_enumerated = 0
         for vi, v in enumerate(VERSIONS):
             m = D.model(v)
             for i, (key, tree) in enumerate(m.arc_sentences()):
+                self._arcs_total += 1
                 if tier == 'quick' and (i + seed + vi) % 3:
                     continue
+                self._arcs_enumerated += 1
                 start = tree[1]
                 yield {'kind': 'arc', 'version': v, 'start': start, 'arc': list(key), 'layout': []}
+                if tier == 'thorough':
+                    # the same arc sentence also with generated layout (comments, continuations, CRLF, odd indentation)
+                    yield {'kind': 'arc', 'version': v, 'start': start, 'arc': list(key), 'layout': [(i * 7 + k * 13 + seed) % 256 for k in range(40)]}
+
+    def extra_evidence(self, tier):
+        if not getattr(self, '_arcs_total', 0):
+            return {}
+        return {'grammar_arcs_reachable_from_start_rules': self._arcs_total, 'grammar_arcs_enumerated_this_run': self._arcs_enumerated,
+                'arc_enumeration_exhaustive': self._arcs_enumerated == self._arcs_total}
 
     def check(self, case):
         try:
